@@ -457,6 +457,31 @@ fn cmd_copy() -> i32 {
     0
 }
 
+/// the public libfs copy functions with the Linux backend: copy_file / copy_sparse
+fn cmd_fscopy(op: &str, src: &str, dst: &str) -> i32 {
+    let r: Result<u64, String> = match op {
+        "copy_file" => libfs::copy_file(std::path::Path::new(src), std::path::Path::new(dst)).map_err(|e| e.to_string()),
+        "sparse" => (|| {
+            let infd = File::open(src).map_err(|e| e.to_string())?;
+            let len = infd.metadata().map_err(|e| e.to_string())?.len();
+            let outfd = File::create(dst).map_err(|e| e.to_string())?;
+            libfs::allocate_file(&outfd, len).map_err(|e| e.to_string())?;
+            libfs::copy_sparse(&infd, &outfd).map_err(|e| e.to_string())
+        })(),
+        _ => Err(format!("unknown op {op}")),
+    };
+    match r {
+        Ok(n) => {
+            println!("OK {}", n);
+            0
+        }
+        Err(e) => {
+            println!("ERR {}", e);
+            1
+        }
+    }
+}
+
 fn main() {
     let args: Vec<String> = std::env::args().collect();
     let code = match args.get(1).map(|s| s.as_str()) {
@@ -464,6 +489,7 @@ fn main() {
         Some("merge-list") => cmd_merge_list(),
         Some("merge-exhaustive") => cmd_merge_exhaustive(args.get(2).and_then(|s| s.parse().ok()).unwrap_or(8)),
         Some("merge-exhaustive-overlap") => cmd_merge_exhaustive_overlap(args.get(2).and_then(|s| s.parse().ok()).unwrap_or(7), args.get(3).and_then(|s| s.parse().ok()).unwrap_or(3)),
+        Some("fscopy") => cmd_fscopy(args.get(2).map(|s| s.as_str()).unwrap_or(""), args.get(3).map(|s| s.as_str()).unwrap_or(""), args.get(4).map(|s| s.as_str()).unwrap_or("")),
         Some("copy") => cmd_copy(),
         _ => {
             eprintln!("usage: probe extents <file> | merge-list | merge-exhaustive <U> | copy");
